@@ -201,12 +201,20 @@ static void upoly_case(void) {
   case 7: { lp_integer_t x, v; lp_integer_construct_from_int(lp_Z, &x, rnd_in(-6, 6)); lp_integer_construct(&v);
     if (chance(15)) gen_mpz(&x);
     sb_begin("up", "evalint"); sb_sp(); hp_ring_token(ri); sb_sp(); sb_upoly(A); sb_sp(); sb_mpz(&x); sb_arrow();
-    lp_upolynomial_evaluate_at_integer(A, &x, &v); sb_sp(); sb_mpz(&v); sb_emit();
+    /* the output may be the very object that holds the point */
+    if (chance(30)) { lp_upolynomial_evaluate_at_integer(A, &x, &x); sb_sp(); sb_mpz(&x); } else { lp_upolynomial_evaluate_at_integer(A, &x, &v); sb_sp(); sb_mpz(&v); }
+    sb_emit();
     lp_integer_destruct(&x); lp_integer_destruct(&v); break; }
   case 8: { if (ri != 0) break;
     lp_rational_t x, v; lp_rational_construct(&x); lp_rational_construct(&v); gen_mpq(&x);
     sb_begin("up", "evalrat"); sb_sp(); hp_ring_token(ri); sb_sp(); sb_upoly(A); sb_sp(); sb_mpq(&x); sb_arrow();
     lp_upolynomial_evaluate_at_rational(A, &x, &v); sb_sp(); sb_mpq(&v); sb_emit();
+    if (chance(30)) { /* output aliasing the point */
+      lp_rational_t y; lp_rational_construct_copy(&y, &x);
+      sb_begin("up", "evalrat"); sb_sp(); hp_ring_token(ri); sb_sp(); sb_upoly(A); sb_sp(); sb_mpq(&x); sb_arrow();
+      lp_upolynomial_evaluate_at_rational(A, &y, &y); sb_sp(); sb_mpq(&y); sb_emit();
+      lp_rational_destruct(&y);
+    }
     sb_begin("up", "sgnrat"); sb_sp(); hp_ring_token(ri); sb_sp(); sb_upoly(A); sb_sp(); sb_mpq(&x); sb_arrow();
     sb_sp(); sb_long(lp_upolynomial_sgn_at_rational(A, &x)); sb_emit();
     lp_rational_destruct(&x); lp_rational_destruct(&v); break; }
@@ -214,7 +222,9 @@ static void upoly_case(void) {
     lp_dyadic_rational_t x, v; lp_dyadic_rational_construct_from_int(&x, rnd_in(-40, 40), rnd(5)); lp_dyadic_rational_construct(&v);
     lp_rational_t xq, vq; lp_rational_construct_from_dyadic(&xq, &x);
     sb_begin("up", "evalrat"); sb_sp(); hp_ring_token(ri); sb_sp(); sb_upoly(A); sb_sp(); sb_mpq(&xq); sb_arrow();
-    lp_upolynomial_evaluate_at_dyadic_rational(A, &x, &v); lp_rational_construct_from_dyadic(&vq, &v); sb_sp(); sb_mpq(&vq); sb_emit();
+    if (chance(30)) { lp_upolynomial_evaluate_at_dyadic_rational(A, &x, &x); lp_rational_construct_from_dyadic(&vq, &x); }
+    else { lp_upolynomial_evaluate_at_dyadic_rational(A, &x, &v); lp_rational_construct_from_dyadic(&vq, &v); }
+    sb_sp(); sb_mpq(&vq); sb_emit();
     lp_rational_destruct(&xq); lp_rational_destruct(&vq); lp_dyadic_rational_destruct(&x); lp_dyadic_rational_destruct(&v); break; }
   case 10: { /* construction normalises into the ring: raw coefficient list */
     unsigned d = rnd(5); lp_integer_t c[6];
